@@ -67,7 +67,9 @@ def handle (ts : List String) : String :=
     | "mulxp" => chk [a] (vecMulXpMinusOne p n rs a)
     | "mulxp_assign" => showCol (vecMulXpMinusOneAssignW w64 p r)
     | "autom" => chk [a] (if has ts "r" then vecAutomorphismIntoW w64 p n r a else vecAutomorphism p n rs a)
-    | "autom_assign" => showCol (vecAutomorphismAssignW w64 p r)
+    | "autom_assign" =>
+      showCol (if has ts "scr" then (vecAutomorphismAssignScr w64 p (List.replicate n (kvInt ts "scr")) r).1
+               else vecAutomorphismAssignW w64 p r)
     | "switch" => showO (vecSwitchRingO (kvNat ts "nin") n rs a)
     | "split" =>
       match vecSplitRingO (kvNat ts "nin") (kvNat ts "nt") (kvNats ts "nouts") (kvNats ts "ps") a with
@@ -93,7 +95,10 @@ def handle (ts : List String) : String :=
     | "big_negate_assign" => showCol (vecNegateAssignW wb r)
     | "big_autom" =>
       showCol (if has ts "r" then vecAutomorphismIntoW wb p n r a else vecAutomorphismW wb p n rs a)
-    | "big_autom_assign" => showCol (if ntt then ntt120BigAutomorphismAssign p r else vecAutomorphismAssignW w64 p r)
+    | "big_autom_assign" =>
+      showCol (if ntt then ntt120BigAutomorphismAssign p r
+               else if has ts "scr" then (vecAutomorphismAssignScr w64 p (List.replicate n (kvInt ts "scr")) r).1
+               else vecAutomorphismAssignW w64 p r)
     | "big_from_small" => showCol (vecCopy n rs a)
     -- Galois elements
     | "gal" =>
